@@ -272,9 +272,10 @@ Qed.
 End Steps2x.
 
 (* --- operators: a follower that cannot extend any punctuator ---------------------------------------- *)
+(* '/' may follow every punctuator but '/' itself ("//" opens a comment; SeqNext.stop_for adds that) *)
 Definition op_stop (c : Z) : Prop :=
   c <> 61 /\ c <> 43 /\ c <> 45 /\ c <> 42 /\ c <> 38 /\ c <> 124 /\ c <> 63 /\ c <> 60 /\ c <> 62 /\
-  c <> 46 /\ c <> 47 /\ c <> 33 /\ ~ (48 <= c <= 57).
+  c <> 46 /\ c <> 33 /\ ~ (48 <= c <= 57).
 
 Lemma op_exchange1 t0 r0 R r0' R'' ty : op (t0 :: r0 :: R) = Ok (1, ty) -> op_stop r0' ->
   op (t0 :: r0' :: R'') = Ok (1, ty).
